@@ -56,5 +56,5 @@ Proof. intros [[]|] []; reflexivity. Qed.
 Lemma source_flags :
   gen_vec_interest_is_conjunction = true /\ gen_vec_enabled_is_all = true /\ gen_vec_hint_is_max_from_off = true /\
   gen_vec_markers = true /\ gen_layered_markers = true /\ gen_option_none_summaries = true /\ gen_filtered_summaries = true /\
-  gen_env_hint = true /\ gen_directive_add_max_exact = true.
+  gen_targets_summaries = true /\ gen_env_hint = true /\ gen_directive_add_max_exact = true.
 Proof. repeat split; reflexivity. Qed.
